@@ -55,6 +55,15 @@
  *     under ASan each of them is a fresh mmap (300 us of page faults per fresh
  *     object otherwise).  Handler records are untouched by this: they stay
  *     ordinary ASan allocations with quarantine.
+ *   - harness/C11.mk links the ASan+UBSan object of src/vbi.c (the only code
+ *     that allocates, frees and walks handler records) with the uninstrumented
+ *     `fast' variant of the rest of the library: a fresh decoder per transition
+ *     costs 55 us instead of 100 us; C11 claims nothing about memory safety
+ *     outside the registry.
+ * Keys: oracle violations are "<class> [no callback action | after callback
+ * removal | after other callback action]" (context only inside a delivery);
+ * crashes are "<callback <call>(<position of its target relative to the
+ * running handler>) | event registry, top level> crash=<class>@<function>".
  */
 #include <stdio.h>
 #include <stdlib.h>
@@ -191,6 +200,7 @@ static struct {
         int action_class;                   /* 0 none yet, 1 some action removed a record, 2 other actions only */
         int bad;                            /* a violation was reported: stop auditing this history */
         int ncalls, nscripts_run, fixups, frame, ntx;
+        unsigned char log[48]; int nlog;    /* handlers called, in order (samples / self check) */
         unsigned outcomes;
 } G;
 
@@ -365,6 +375,7 @@ static void exec_op(int letter, int running)
 static void on_call(int f, vbi_event *ev, void *ud)
 {
         G.ncalls++;
+        if (G.nlog < (int) sizeof G.log) G.log[G.nlog++] = (unsigned char)(f * 2 + (ud == &udtag[1]));
         if (G.bad) return;
         if (!G.in_delivery) { fail("handler called while no event is being delivered", NULL); return; }
         if (G.depth) { fail("handler called from inside another handler", NULL); return; }
@@ -621,6 +632,24 @@ static const struct cfg CFGS[] = {
         { "list-f0f0f1f1", 4, { {0,0,3}, {0,1,3}, {1,0,3}, {1,1,3} }, { 3, 4 }, 2 },
 };
 
+/* One written-out scenario, run in the parent: shows that scripted actions really run inside the
+ * library's traversal and reach the cursor fix-up, and gives the evidence file a readable sample. */
+static void self_check(void)
+{
+        static const uint8_t h[] = { 0 * 8 + 0 * 4 + 3, 1 * 8 + 0 * 4 + 3, 0 * 8 + 1 * 4 + 3,      /* reg(f0,u0,ALL) reg(f1,u0,ALL) reg(f0,u1,ALL) */
+                                     L_IN + 0, L_UNREG + 1 * 2 + 0,                                /* in(f0,u0): unreg(f1,u0) */
+                                     L_RAISE + 1 };                                                /* raise(CAPTION) */
+        uint64_t hash[2];
+        int rc = run(h, sizeof h, hash, (void *) &CFGS[0]);
+        /* history: (f0,u0) [removes next] (f0,u1); probes: 3 raises + 1 transmission x 2 handlers */
+        static const unsigned char want[10] = { 0, 1, 0, 1, 0, 1, 0, 1, 0, 1 };
+        if (rc || G.bad || G.fixups != 1 || G.nscripts_run != 1 || G.nlog != 10 || memcmp(G.log, want, 10)) {
+                fprintf(stderr, "C11: harness self check failed (rc=%d bad=%d fixups=%d scripts=%d calls=%d)\n", rc, G.bad, G.fixups, G.nscripts_run, G.nlog);
+                exit(2);
+        }
+        mc_sample("self check: %s => calls (f0,u0)[unregisters the next handler (f1,u0) from inside the callback] (f0,u1); (f1,u0) never called again in the 4 probe deliveries", hist_str());
+}
+
 int main(int argc, char **argv)
 {
         mc_init(argc, argv, "C11");
@@ -638,6 +667,7 @@ int main(int argc, char **argv)
                 o += snprintf(bound + o, sizeof bound - o, "%s%s: <=%d letters", i ? "; " : "", CFGS[i].name, CFGS[i].depth[tier]);
         mc_meta("bound", "%s; <=2 scripted callback actions; every history followed by 3 probe raises + 1 probe transmission", bound);
 
+        if (!mc_replaying) self_check();
         for (unsigned i = 0; i < sizeof CFGS / sizeof *CFGS; i++) {
                 mc_bfs_spec spec; memset(&spec, 0, sizeof spec);
                 spec.nletters = NLETTERS; spec.max_depth = CFGS[i].depth[tier]; spec.timeout_s = 30;
